@@ -895,15 +895,9 @@ match &current.container {
                 status: Status::FAIL,
                 message,
             })) => {
-                let checks = report_all_failed_clauses_for_rules(&current.children);
-                
-                
-                if checks.is_empty() && message.is_none() {
-                    continue;
-                }
                 clauses.push(ClauseReport::Rule(RuleReport {
                     name,
-                    checks,
+                    checks: report_all_failed_clauses_for_rules(&current.children),
                     messages: Messages {
                         custom_message: message.clone(),
                         error_message: None,
